@@ -27,7 +27,7 @@ type Spec struct {
 	DefExp  int64  `json:"defexp,omitempty"`  // cache default expiration handed to the constructor
 	HasDef  bool   `json:"hasdef,omitempty"`  // pass DefExp (otherwise library default)
 	CB      bool   `json:"cb,omitempty"`      // install evicted callback at construction
-	Reenter uint8  `json:"reenter,omitempty"` // callback re-entry: 0 none, 1 Get(k), 2 Get(k)+Delete(k)+Count
+	Reenter uint8  `json:"reenter,omitempty"` // callback re-entry: 0 none, 1 Get(k) (must not return the evicted value), 2 Count(), 3 both
 	Cleanup int64  `json:"cleanup,omitempty"` // cleanup interval handed to constructor (virtual clock: ticker never fires)
 }
 
@@ -422,7 +422,7 @@ func (a *cacheAd) mkCallback() cache.EvictedCallback {
 		vi := toInt(v)
 		if s := ss.sinks[tid()]; s != nil {
 			s.Ev = append(s.Ev, model.KV{K: ki, V: vi})
-			if a.spec.Reenter >= 1 {
+			if a.spec.Reenter == 1 || a.spec.Reenter == 3 {
 				if g, ok := a.c.Get(k); ok && toInt(g) == vi {
 					s.Note += fmt.Sprintf("callback for (k%d,%d): value still retrievable; ", ki, vi)
 				}
@@ -602,7 +602,7 @@ func (a *cacheOfAd[K]) mkCallback() cache.EvictedCallbackOf[K, int] {
 		ki := a.kc.from(k)
 		if s := ss.sinks[tid()]; s != nil {
 			s.Ev = append(s.Ev, model.KV{K: ki, V: v})
-			if a.spec.Reenter >= 1 {
+			if a.spec.Reenter == 1 || a.spec.Reenter == 3 {
 				if g, ok := a.c.Get(k); ok && g == v {
 					s.Note += fmt.Sprintf("callback for (k%d,%d): value still retrievable; ", ki, v)
 				}
